@@ -266,6 +266,7 @@ func init() {
 }
 
 func run(t *T) {
+	hangs.Store(0)
 	seeds, err := textSeeds(t.R.Fork(1))
 	if err != nil {
 		t.Fail("C06/generator", "generator failed", nil, err.Error(), "valid files")
@@ -531,7 +532,7 @@ func coreValues(old any) []struct {
 	case bool:
 		return []vk{{!old.(bool), "bool-flipped"}}
 	}
-	return []vk{{"", "null-to-empty-string"}}
+	return []vk{{"", "null-to-empty-string"}, {json.Number("0"), "null-to-0"}, {[]any{nil}, "null-to-array-of-null"}, {map[string]any{}, "null-to-object"}, {[]any{map[string]any{}}, "null-to-array-of-empty-object"}}
 }
 
 var fixedSeqs = [][]string{
@@ -548,6 +549,7 @@ var systematicSeq = []string{"Batch.Create", "Create", "Validate", "WriteBypass"
 type sysCase struct {
 	tag, baseName, path, kind, target string
 	doc                               []byte
+	seq                               []string // nil = systematicSeq
 }
 
 // targetedCases: the D1 shapes.  A batch with an Offset and >= 3 entries
@@ -565,7 +567,7 @@ func targetedCases(r *gen.Rand) []sysCase {
 			continue
 		}
 		doc, _ := json.Marshal(f)
-		cases = append(cases, sysCase{"PPD+offset", gen.Describe(f), "", "unmutated", "", doc})
+		cases = append(cases, sysCase{tag: "PPD+offset", baseName: gen.Describe(f), kind: "unmutated", doc: doc})
 		var root any
 		dec := json.NewDecoder(bytes.NewReader(doc))
 		dec.UseNumber()
@@ -575,7 +577,7 @@ func targetedCases(r *gen.Rand) []sysCase {
 				defer func() { recover() }()
 				setAt(root, p, "OFFSET")
 				d2, _ := json.Marshal(root)
-				cases = append(cases, sysCase{"PPD+offset", gen.Describe(f), "batches[].entryDetails[].individualName", "str-OFFSET-first-entry", "", d2})
+				cases = append(cases, sysCase{tag: "PPD+offset", baseName: gen.Describe(f), path: "batches[].entryDetails[].individualName", kind: "str-OFFSET-first-entry", doc: d2})
 			}()
 		}
 		// the existing OFFSET entry renamed: decoding appends a fresh OFFSET entry at index >= 3, a later Batch.Create trips over it
@@ -590,7 +592,7 @@ func targetedCases(r *gen.Rand) []sysCase {
 					}
 				}
 				d2, _ := json.Marshal(root)
-				cases = append(cases, sysCase{"PPD+offset", gen.Describe(f), "batches[].entryDetails[].individualName", "str-1-every-OFFSET-entry", "", d2})
+				cases = append(cases, sysCase{tag: "PPD+offset", baseName: gen.Describe(f), path: "batches[].entryDetails[].individualName", kind: "str-1-every-OFFSET-entry", doc: d2})
 			}()
 		}
 		break
@@ -599,7 +601,11 @@ func targetedCases(r *gen.Rand) []sysCase {
 }
 
 func evalSysCase(c sysCase, other []byte) caseResult {
-	res := caseResult{key: c.tag + "|" + c.path + "=" + c.kind, nontrivial: true}
+	systematicSeq := systematicSeq
+	if c.seq != nil {
+		systematicSeq = c.seq
+	}
+	res := caseResult{key: c.tag + "|" + c.path + "=" + c.kind + "|" + systematicSeq[0], nontrivial: true}
 	input := func() map[string]any {
 		return map[string]any{"base": c.tag + " generator: " + c.baseName, "replaced": c.path + "=" + c.kind, "json": clipQ(c.doc), "api": "FileFromJSON", "sequence": systematicSeq,
 			"replay": "f, _ := ach.FileFromJSON(json); then the sequence on f"}
@@ -684,7 +690,10 @@ func runJSONSystematic(t *T) {
 				for _, cv := range coreValues(old) {
 					setAt(root, l.path, cv.v)
 					d2, _ := json.Marshal(root)
-					cases = append(cases, sysCase{tag, gen.Describe(f), ps, cv.kind, "", d2})
+					cases = append(cases, sysCase{tag: tag, baseName: gen.Describe(f), path: ps, kind: cv.kind, doc: d2})
+					if old == nil {
+						cases = append(cases, sysCase{tag: tag, baseName: gen.Describe(f), path: ps, kind: cv.kind, doc: d2, seq: fixedSeqs[1]})
+					}
 					if _, isStr := old.(string); isStr && strings.Contains(ps, "entryDetails") {
 						// the same with validation switched off inside the document: the value
 						// survives decoding and reaches the later operations
@@ -693,7 +702,7 @@ func runJSONSystematic(t *T) {
 						m["validateOpts"] = map[string]any{"skipAll": true}
 						d3, _ := json.Marshal(root)
 						m["validateOpts"] = saved
-						cases = append(cases, sysCase{tag, gen.Describe(f), ps + " & validateOpts={skipAll}", cv.kind, "", d3})
+						cases = append(cases, sysCase{tag: tag, baseName: gen.Describe(f), path: ps + " & validateOpts={skipAll}", kind: cv.kind, doc: d3})
 					}
 				}
 				setAt(root, l.path, old)
